@@ -8,7 +8,8 @@ from . import gen, dec
 class C14(Prop):
     id = 'C14'
     module = 'Cbor.Props.C14'
-    theorems = ['Props.C14.C14_suffix', 'Props.C14.C14_two', 'Lemmas.Local.run_suffix', 'Lemmas.Refine.load_eq']
+    extra_modules = ['Cbor.Lemmas.Sequence']
+    theorems = ['Props.C14.C14_sequence', 'Props.C14.C14_sequence_fuel', 'Props.C14.C14_sequence_encoded', 'Props.C14.C14_suffix', 'Props.C14.C14_two', 'Lemmas.Local.run_suffix', 'Lemmas.Refine.load_eq']
     trusted_base = BASE_TRUST + MODEL_TRUST
     rule = ('pairs (x, y): x an enumerated well-formed item in an exactly-sized block, y in {empty, every single byte (sampled), other items, garbage}; '
             'and concatenations of up to 6 items split by repeated decoding; sequences of 6000 items (all kinds; containers and tags only) decoded in one process; non-trivial = y non-empty; distinct by (x, y, outcome)')
